@@ -81,12 +81,12 @@ Proof. exact complete_definition_def_shape. Qed.
 Print Assumptions C19_complete_definition_def_shape.
 
 (* the same for the theory the roles are read off since /repo 70e6ace (finding F17): the completed
-   theory followed by the empty completed definitions of the missing output predicates, which are
-   def_shape as well *)
+   theory followed by the empty completed definitions of the missing output predicates (since
+   /repo 18b2e85: of those that occur in the task, `occ`), which are def_shape as well *)
 Theorem C19_translated_theory_classified :
-  forall (P : program) (G : theory) (m : placeholders) (ins outs : list pred) (D : theory),
+  forall (P : program) (G : theory) (m : placeholders) (ins outs occ : list pred) (D : theory),
     TauStar.tau_star P = Some G -> completion (rp_theory m G) ins = Some D ->
-    forall d, In d (D ++ missing_output_definitions outs D) -> classified d.
+    forall d, In d (D ++ missing_output_definitions outs occ D) -> classified d.
 Proof. exact translated_classified_ext. Qed.
 Print Assumptions C19_translated_theory_classified.
 
@@ -126,8 +126,8 @@ Theorem C19_external_partial :
          (tau_star : program -> theory) (completion : theory -> list pred -> option theory)
          (simp_classic : formula -> formula),
     (forall FI M f, cvalid FI M (simp_classic f) <-> cvalid FI M f) ->
-    (forall ins outs p m D, completion (rp_theory m (tau_star p)) ins = Some D ->
-       forall f, In f (D ++ missing_output_definitions outs D) -> head_predicate (simp_classic f) = head_predicate f) ->
+    (forall ins outs occ p m D, completion (rp_theory m (tau_star p)) ins = Some D ->
+       forall f, In f (D ++ missing_output_definitions outs occ D) -> head_predicate (simp_classic f) = head_predicate f) ->
     forall (t t' : ext_task) w pbs w' pbs',
       same_claim t t' ->
       external_decompose is_tight has_private_recursion tau_star completion simp_classic t = Ok (w, pbs) ->
